@@ -91,7 +91,8 @@ func (g *gen) addRequires(rep map[string]any, tm *typeModel) {
 	}
 	rep["ext"] = "x" + strconv.Itoa(g.rng.Intn(1000))
 	rep["num"] = json.Number(strconv.Itoa(g.rng.Intn(2000) - 1000))
-	rep["own"] = map[string]any{"id": "o" + strconv.Itoa(g.rng.Intn(1000)), "tier": "t" + strconv.Itoa(g.rng.Intn(1000))}
+	rep["own"] = map[string]any{"id": "o" + strconv.Itoa(g.rng.Intn(1000)), "tier": "t" + strconv.Itoa(g.rng.Intn(1000)),
+		"home": map[string]any{"id": "h" + strconv.Itoa(g.rng.Intn(1000))}}
 }
 
 // good builds a representation some @key of the type accepts.
